@@ -239,8 +239,11 @@ def explore(ctx):
                         viol('bad-edit:balanced', f'balanced::{arg} on {text!r} state {st}: {out!r} is not a subsequence', rep)
                     elif not (a <= pq[0] and pq[1] <= b):
                         viol('non-local:balanced', f'balanced::{arg} on {text!r} state {st}: changed [{pq[0]},{pq[1]}) outside the matched span [{a},{b})', rep)
-                    elif mode[0] == 3 and out != text[:a] + mode[1] + text[b:]:
-                        viol('bad-edit:balanced', f'balanced::{arg} on {text!r}: {out!r}', rep)
+                    else:
+                        want = {0: text[:a] + text[b:], 1: text[:a] + text[a + 1:b - 1] + text[b:], 2: text[:a + 1] + text[b - 1:],
+                                3: text[:a] + mode[1] + text[b:]}[mode[0]]
+                        if out != want:
+                            viol('bad-edit:balanced', f'balanced::{arg} on {text!r} span [{a},{b}): got {out!r}, the documented edit gives {want!r}', rep)
                 cs.add('run_balanced', f'({tbl}, ({ord(o)}%N, {ord(c)}%N), {"(Some 0)" if prefix else "(@None nat)"}, ({mode[0]}, {ct(mode[1])}), {ct(text)}, {"(@None span)" if st is None else "(Some (%d, %d))" % st})',
                        [{'OK': 0, 'STOP': 2}[res]] + ([-1] if st2 is None else [1, st2[0], st2[1]]) + enc_text(out))
         # ---------------- ints / special: one span of finditer replaced ----------------
